@@ -42,6 +42,25 @@ class CallMixin:
                 a = ctx.zbool(ctx.truth(self.eval(n.args[0])))
                 b = ctx.zbool(ctx.truth(self.eval(n.args[1])))
                 return SV(BOOL, a == b)
+        from .symex import MUTATORS
+        if not ctx.spec and isinstance(n.func, ast.Attribute) and n.func.attr in MUTATORS and isinstance(n.func.value, ast.Subscript) \
+                and not isinstance(n.func.value.slice, ast.Slice):
+            # outer[idx].append(x): containers nested in a container are values of the outer one - mutate a copy that is as
+            # fresh as the outer container and store it back
+            outer = self.eval(n.func.value.value)
+            if isinstance(outer, Cell) and outer.sym is not None and outer.kind in ("list", "dict"):
+                idx = self.eval(n.func.value.slice)
+                inner = self.list_get(outer, idx) if outer.kind == "list" else self.dict_get(outer, idx, raising=True)
+                if isinstance(inner, Cell):
+                    inner.fresh = outer.fresh
+                    inner.origin = outer.origin
+                    args = [self.eval(a) for a in n.args]
+                    res = self.call_method(inner, n.func.attr, args, {}, n)
+                    if outer.kind == "list":
+                        self.list_set(outer, idx, inner)
+                    else:
+                        self.dict_set(outer, idx, inner)
+                    return res
         if ctx.spec and isinstance(n.func, ast.Name) and n.func.id in self.engine.spec_funcs \
                 and not isinstance(self.env.get(n.func.id), (Closure, C.Contract)):
             f = self.engine.spec_funcs[n.func.id]      # a local variable may shadow a spec function's name
